@@ -1,6 +1,7 @@
 package props
 
 import (
+	"regexp"
 	"fmt"
 	"go/ast"
 	"go/token"
@@ -99,12 +100,14 @@ func runC20(p *core.Program, r *core.Report) {
 	r.Rule("C20.total", "type assertions in Equals/CompareTo cannot fail: other operand checked first; look-ups in the other container use comma-ok", 38)
 	r.Rule("C20.mixed", "mixed-type comparison is a signed difference of type codes", 18)
 	r.Rule("C20.same", "same-type comparison: 0 iff equal, sign reverses on swap, Equals <=> CompareTo == 0 (all orderings)", 14)
+	r.Rule("C20.sizes", "container Equals/CompareTo reach their element loop only after the two sizes compared equal (a one-sided walk over the receiver's elements cannot see extra elements on the other side)", 6)
 	r.Rule("C20.helpers", "compare helpers: -1/0/+1; slice helpers 0 when both empty (nil == empty), antisymmetric, comparison-only", 11)
 
 	for _, t := range valueImplementers(p) {
 		c20Total(p, r, t)
 		c20Mixed(p, r, t)
 		c20Same(p, r, t)
+		c20Sizes(p, r, t)
 	}
 	c20Helpers(p, r)
 }
@@ -627,4 +630,174 @@ func paramIdent(fi *core.FuncInfo, i int) *ast.Ident {
 		}
 	}
 	return nil
+}
+
+var c20SizeName = regexp.MustCompile(`(?i)^(size|len|length|count)$`)
+
+// c20Sizes: the element loop of a container's Equals/CompareTo walks the receiver's elements only, so
+// "equal" is a sound verdict only when both sizes were compared equal before the loop is reached.
+func c20Sizes(p *core.Program, r *core.Report, t *types.Named) {
+	for _, fi := range p.MethodsOf(t) {
+		name := fi.Obj.Name()
+		if (name != "Equals" && name != "CompareTo") || fi.Decl.Body == nil {
+			continue
+		}
+		if fi.Decl.Type.Params == nil || len(fi.Decl.Type.Params.List) == 0 || len(fi.Decl.Type.Params.List[0].Names) == 0 {
+			continue
+		}
+		hasLoop := false
+		ast.Inspect(fi.Decl.Body, func(n ast.Node) bool {
+			switch n.(type) {
+			case *ast.ForStmt, *ast.RangeStmt:
+				hasLoop = true
+			}
+			return true
+		})
+		if !hasLoop {
+			continue
+		}
+		info := fi.Pkg.TypesInfo
+		var recv types.Object
+		if fi.Decl.Recv != nil && len(fi.Decl.Recv.List) > 0 && len(fi.Decl.Recv.List[0].Names) > 0 {
+			recv = info.Defs[fi.Decl.Recv.List[0].Names[0]]
+		}
+		otherObj := info.Defs[fi.Decl.Type.Params.List[0].Names[0]]
+		aliases := map[types.Object]bool{otherObj: true}
+		ast.Inspect(fi.Decl.Body, func(n ast.Node) bool {
+			if as, ok := n.(*ast.AssignStmt); ok && len(as.Lhs) >= 1 && len(as.Rhs) == 1 {
+				if root := rootOf(as.Rhs[0]); root != nil && aliases[info.ObjectOf(root)] {
+					if _, isCall := ast.Unparen(as.Rhs[0]).(*ast.CallExpr); !isCall {
+						if id, ok := as.Lhs[0].(*ast.Ident); ok {
+							aliases[info.ObjectOf(id)] = true
+						}
+					}
+				}
+			}
+			return true
+		})
+		// side: 1 = a size of the receiver, 2 = a size of the other operand, 0 = neither
+		side := func(e ast.Expr) int {
+			e = stripConvs(info, expandLocals(info, fi.Decl.Body, e))
+			call, ok := ast.Unparen(e).(*ast.CallExpr)
+			if !ok {
+				return 0
+			}
+			var of ast.Expr
+			if id, ok := call.Fun.(*ast.Ident); ok && id.Name == "len" && len(call.Args) == 1 {
+				of = call.Args[0]
+			} else if sel, ok := call.Fun.(*ast.SelectorExpr); ok && len(call.Args) == 0 && c20SizeName.MatchString(sel.Sel.Name) {
+				of = sel.X
+			}
+			if of == nil {
+				return 0
+			}
+			root := rootOf(of)
+			if root == nil {
+				return 0
+			}
+			switch o := info.ObjectOf(root); {
+			case o == recv && recv != nil:
+				return 1
+			case aliases[o]:
+				return 2
+			}
+			return 0
+		}
+		// a walk over the OTHER operand's elements as well (a two-sided comparison) needs no size test
+		twoSided := false
+		ast.Inspect(fi.Decl.Body, func(n ast.Node) bool {
+			switch v := n.(type) {
+			case *ast.RangeStmt:
+				if root := rootOf(v.X); root != nil && aliases[info.ObjectOf(root)] {
+					twoSided = true
+				}
+			case *ast.CallExpr:
+				if sel, ok := v.Fun.(*ast.SelectorExpr); ok && len(v.Args) == 0 {
+					if root := rootOf(sel.X); root != nil && aliases[info.ObjectOf(root)] {
+						if rt := info.TypeOf(v); rt != nil && !isBasicType(rt) && !c20SizeName.MatchString(sel.Sel.Name) && sel.Sel.Name != "GetValueType" {
+							twoSided = true // that.Keys(), that.table.Entries(): an enumeration of the other side
+						}
+					}
+				}
+			}
+			return true
+		})
+		if twoSided {
+			r.Info("C20.sizes", "lang/value."+t.Obj().Name()+"."+name, p.Pos(fi.Decl.Pos()), "the other operand's elements are enumerated too: a two-sided walk, not judged by the size rule")
+			continue
+		}
+		in := newInliner(p, fi, nil)
+		ps, over := paths.Enumerate(fi.Decl.Body, paths.Config{Info: info, Expand: in.Expand,
+			Cond: func(c ast.Expr, v bool) *paths.Event {
+				arg := ""
+				if be, ok := ast.Unparen(c).(*ast.BinaryExpr); ok {
+					l, rr := side(be.X), side(be.Y)
+					op := be.Op
+					if l == 2 && rr == 1 {
+						l, rr = 1, 2
+						switch op {
+						case token.LSS:
+							op = token.GTR
+						case token.GTR:
+							op = token.LSS
+						case token.LEQ:
+							op = token.GEQ
+						case token.GEQ:
+							op = token.LEQ
+						}
+					}
+					if l == 1 && rr == 2 {
+						// the orderings of (own size, other size) this outcome leaves possible
+						set := map[token.Token]string{token.EQL: "=", token.NEQ: "<>", token.LSS: "<", token.GTR: ">", token.LEQ: "<=", token.GEQ: "=>"}[op]
+						if !v {
+							set = map[string]string{"=": "<>", "<>": "=", "<": "=>", ">": "<=", "<=": ">", "=>": "<"}[set]
+						}
+						arg = set
+					}
+				}
+				if arg == "" {
+					return nil
+				}
+				return &paths.Event{Kind: "SIZES", Arg: arg, Pos: c.Pos()}
+			}})
+		c := "lang/value." + t.Obj().Name() + "." + name
+		pos := p.Pos(fi.Decl.Pos())
+		if over {
+			r.Undec("C20.sizes", c, pos, "too many paths")
+			continue
+		}
+		bad := ""
+		n := 0
+		for _, pa := range ps {
+			poss := "<=>"
+			for _, e := range pa {
+				if e.Kind == "SIZES" {
+					keep := ""
+					for _, ch := range poss {
+						if strings.ContainsRune(e.Arg, ch) {
+							keep += string(ch)
+						}
+					}
+					poss = keep
+				}
+				if e.Kind == "LOOP" {
+					n++
+					if poss != "=" {
+						bad = p.Pos(e.Pos)
+					}
+					break
+				}
+			}
+		}
+		if n == 0 {
+			continue
+		}
+		r.Check(bad == "", "C20.sizes", c, pos, fmt.Sprintf("%d path(s) reach the element loop, each after the sizes compared equal", n),
+			"the element loop at "+bad+" is reached on a path that has not established equal sizes: it walks the receiver's elements only, so a value compares equal to any value that contains it (equality is not symmetric, Equals disagrees with CompareTo == 0)")
+	}
+}
+
+func isBasicType(t types.Type) bool {
+	_, ok := t.Underlying().(*types.Basic)
+	return ok
 }
